@@ -1,7 +1,40 @@
 package main
 
+const scenarioBoundsQuick = "scenarios (sum, not product): origin lists {*; a.b; *.a.b:*+a.b; http a.b+[::1]} x 1 Origin value of <=13 symbolic bytes (absent / empty list / 1 / 2 values) x {GET, OPTIONS, preflight}; method lists (3 menus) x ACRM <=6 symbolic bytes; request-header lists (5 menus) x 0-2 ACRH lines of <=5 symbolic bytes; PNA switches x ACRPN <=5 bytes; expose (3) / max-age {0,-1,600} / status symbolic 64-bit; dispatch: method <=7 symbolic bytes x presence kinds of Origin and ACRM; debug symbolic except in the origin scenario (off)"
+const scenarioBoundsThorough = "as quick with: 8 origin menus (incl. IPv4/IPv6 loopback, trailing dot, shared non-label suffix, :* ports), Origin <=17 bytes, debug symbolic everywhere, 5 method menus, 6 request-header menus, 0-3 ACRH lines of <=6 bytes, 5 expose menus, 6 max-age values"
+const scenarioOutside = "configurations outside the menus; request values longer than the bounds; combinations of two symbolic aspects at once (each scenario pins the aspects it does not vary); IDNA/PSL/netip semantics beyond the menu atoms (run natively)"
+
 var checkSpecs = map[string]CheckSpec{
 	"S00": {ID: "S00", Harnesses: []HarnessSpec{
 		{Pkg: "headers", Entry: "zzH_smoke_trim", Reach: []string{"trimmed", "failed"}},
 	}, Bounds: map[string]string{"quick": "smoke", "thorough": "smoke"}, Outside: "n/a", Explain: "smoke"},
+	"C03": {ID: "C03", Harnesses: []HarnessSpec{
+		{Pkg: "cors", Entry: "zzH_C03_api", Reach: []string{"acao-star", "acao-echo", "acac", "no-acao", "aceh", "acma", "preflight"}},
+	}, Bounds: map[string]string{"quick": scenarioBoundsQuick, "thorough": scenarioBoundsThorough}, Outside: scenarioOutside,
+		Explain: "NewMiddleware+Wrap+ServeHTTP executed symbolically on accepted configurations and symbolic requests; every clause of C03 is an assertion on the recorded response; the allowed-origin oracle is the documented pattern meaning written by hand (zzDenotes)"},
+	"C06": {ID: "C06", Harnesses: []HarnessSpec{
+		{Pkg: "cors", Entry: "zzH_C06_api", Reach: []string{"roundtrip"}},
+	}, Bounds: map[string]string{"quick": scenarioBoundsQuick, "thorough": scenarioBoundsThorough}, Outside: scenarioOutside,
+		Explain: "three constructions (NewMiddleware(c), NewMiddleware(*m.Config()), zero value + Reconfigure(&c)) serve the same symbolic request; responses compared field by field; Config() idempotence after one trip; m.Reconfigure(m.Config()) is a no-op"},
+	"C08": {ID: "C08", Harnesses: []HarnessSpec{
+		{Pkg: "cors", Entry: "zzH_C08_api", Reach: []string{"rejected", "passthrough", "debug-probed"}},
+	}, Bounds: map[string]string{"quick": scenarioBoundsQuick + "; invalid configurations: 8 single/multi-violation shapes with symbolic out-of-range integers (all 8 x passthrough/configured prior state in the lists/PNA/dispatch scenarios, the multi-violation one elsewhere)", "thorough": scenarioBoundsThorough + "; invalid configurations as quick"}, Outside: scenarioOutside,
+		Explain: "observations (response to a symbolic request, Config(), debug probe) before and after a failed Reconfigure must be equal"},
+	"C09": {ID: "C09", Harnesses: []HarnessSpec{
+		{Pkg: "cors", Entry: "zzH_C09_history", Reach: []string{"history"}},
+		{Pkg: "cors", Entry: "zzH_C09_diag", Reach: []string{"same", "failing-preflight", "debug-acah"}},
+	}, Bounds: map[string]string{"quick": "histories of <=4 steps over 6 operations from 2 start states (exhaustive by forking), observed after every step; diagnostics part: " + scenarioBoundsQuick, "thorough": "histories of <=6 steps; diagnostics part: " + scenarioBoundsThorough}, Outside: scenarioOutside + "; histories longer than the bound",
+		Explain: "(a) a reference automaton of the documented debug rules runs beside the real middleware over every bounded history; (b) relational: the same symbolic request served with debug off and on"},
+	"C10": {ID: "C10", Harnesses: []HarnessSpec{
+		{Pkg: "cors", Entry: "zzH_C10_api", Reach: []string{"origin-free", "acrm-free"}},
+	}, Bounds: map[string]string{"quick": scenarioBoundsQuick + "; second request: headers not named by the first response's Vary replaced by {absent, fresh symbolic <=4 bytes, interesting literal}", "thorough": scenarioBoundsThorough + "; second request as quick"}, Outside: scenarioOutside,
+		Explain: "self-composition: request 2 shares the terms of request 1 for every header named in response 1's Vary and is free elsewhere; status, dispatch, CORS headers and Vary must be equal"},
+	"C11": {ID: "C11", Harnesses: []HarnessSpec{
+		{Pkg: "cors", Entry: "zzH_C11_api", Reach: []string{"preflight", "delegated", "passthrough"}},
+	}, Bounds: map[string]string{"quick": scenarioBoundsQuick + "; handler status symbolic 64-bit, handler/pre-set Vary and headers symbolic presence in the dispatch scenario", "thorough": scenarioBoundsThorough}, Outside: scenarioOutside + "; handler bodies (Write is counted, not inspected)",
+		Explain: "handler invocation count, identity of writer/request, status and header survival asserted against the documented preflight predicate; passthrough (zero value and Reconfigure(nil)) must be the identity"},
+	"C16": {ID: "C16", Harnesses: []HarnessSpec{
+		{Pkg: "cors", Entry: "zzH_C16_api", Reach: []string{"failed", "succeeded"}},
+	}, Bounds: map[string]string{"quick": scenarioBoundsQuick + " (preflights only, debug off)", "thorough": scenarioBoundsThorough + " (preflights only, debug off)"}, Outside: scenarioOutside,
+		Explain: "failed preflight: 403 and no Access-Control-* header; successful preflight: every value of every Access-Control-* header is *, true, the configured max-age, `*,authorization` in its documented case, or byte-equal to a value the request supplied"},
 }
